@@ -336,6 +336,13 @@ func (w *wstream) Send(r *spb.ModifyResponse) error {
 		if r.GetElectionId() != nil && s.lastReqElec != nil {
 			out = &spb.ModifyResponse{ElectionId: s.lastReqElec}
 		}
+	case "inflateElection":
+		// the faulty server reports an election id that is higher than the highest id it learnt
+		if e := r.GetElectionId(); e != nil {
+			c := proto.Clone(r).(*spb.ModifyResponse)
+			c.ElectionId = &spb.Uint128{High: e.GetHigh(), Low: e.GetLow() + 7}
+			out = c
+		}
 	case "staleElectionUpdate":
 		// the faulty server runs the election correctly but answers an update of the election id within a session with the
 		// id it reported before
